@@ -1,4 +1,5 @@
 import RossModel.Lemmas.Applies
+import RossModel.Lemmas.Accept
 import RossModel.Lemmas.Event
 /-!
 # C05 — Event decoders never crash on untrusted packets; accept only exact encodings
@@ -37,5 +38,10 @@ theorem C05_decode_err_applies (k : Kind) (p : Packet) (r : CErr) (h : decode k 
 theorem C05_decode_reencode (pad : Pad) (k : Kind) (p : Packet) (e : Event) (h : decode k p = .ok e) :
     decode k (encode pad e) = .ok e :=
   Ross.decode_reencode pad k p e h
+
+/-- the executable predicate with which the driver validates the rejection reason reported by the real decoders
+decides exactly `CApplies` -/
+theorem C05_cappliesB_iff (r : CErr) (k : Kind) (p : Packet) : cappliesB r k p = true ↔ CApplies r k p :=
+  Ross.cappliesB_iff r k p
 
 end Ross.Props
